@@ -11,6 +11,11 @@ inductive SrcFile where
   | commit | tag | pipes | opts | message | filechange | pathutil | limits | error | verifHooks
   deriving DecidableEq, Repr
 
+/-- integer constants of the source that the model mirrors -/
+inductive ConstName where
+  | maxDetectedValues | maxScanBlobBytes | maxDataBlockSize | stripShaOnDiskThreshold | shaHexLen | minShortHashLen
+  deriving DecidableEq, Repr
+
 inductive Guard where
   | notDryRun | dryRun | optReset | optBackup | cleanupStandard | cleanupAggressive
   | optSensitive | notSensitive | optWriteReport | modeFilter | modeAnalyze | other
@@ -285,6 +290,37 @@ def ModesSeparated (evs : List Event) : Bool :=
     | .git c => c.guards.contains .modeFilter
     | .fileCreate _ g => g.contains .modeFilter
     | .statusCheck _ => true
+
+def constOf (cs : List (ConstName × Nat)) (n : ConstName) : Option Nat := (cs.find? fun c => c.1 == n).map (·.2)
+
+/-- the built-in secret patterns of detect.rs as audited when the end-to-end planting generators were written (one
+    generator per family in `checks/e2e.py plant_token`): FNV-1a of "<regex source>|<capture group>", in table order.
+    A changed, added, removed or reordered pattern breaks the obligation; the end-to-end runs then look for a token of a
+    documented format that is no longer reported. -/
+def auditedSecretPatterns : List Nat := [
+  4986998226137515080,
+  13919480215996457158,
+  18080066808229098039,
+  9613408370301108388,
+  830624176327722292,
+  18297287483570198719,
+  4886129230641824628,
+  8930687383391996024,
+  595110611361172028,
+  18096724888534395372,
+  12578635400859347564,
+  286047724810780863,
+  1446773243095898216,
+  17307136446825716801,
+  638092010117383962,
+  7938893994978395964,
+  13816288086295335306,
+  4122907995695552015,
+  16688398480988190546,
+  7810469003545509730,
+  18241546068217879832,
+  1980029332361275866
+]
 
 /-! ### the module call graph: what can a mode reach? -/
 
